@@ -159,7 +159,7 @@ def run(report, p):
             r3.check(ok, el.func, el.node, f"<{el.tag}> text is written without conversion to POSIX separators")
 
     # ------------------------------------------------------------------ R2.4
-    r4 = report.rule("R2.4", "-sf scope: in single-file mode every sealed path is a named path (made absolute) or a file below a traversal rooted at a named folder; no traversal of the root; no directory records", 2)
+    r4 = report.rule("R2.4", "-sf scope: in single-file mode every sealed path is a named path (made absolute) or a file below a traversal rooted at a named folder; no traversal of the root; no directory records", 1)
     sf = p.funcs.get("ascmhl.commands.create_for_single_files_subcommand")
     if sf is None:
         raise AnalysisError("create_for_single_files_subcommand not found")
@@ -169,6 +169,7 @@ def run(report, p):
             r4.instance(sf, c, norm(c)[:80])
             ok = True
             for o in pr.origins(c.args[1], sf):
+                o = pr.inline(o, depth=2)
                 tcalls = [s for s in subterms(o) if s[0] == "call" and s[1] in [x.qual for x in travs]]
                 if tcalls:
                     for tc in tcalls:
